@@ -52,7 +52,8 @@ Reset == /\ IsEvent("reset")
 NewSock == /\ IsEvent("op") /\ Ev.op \in {"udp", "tcp"} /\ expect = NoExp
            /\ socks' = (Ev.s :> [typ |-> Ev.op, v |-> Ev.v, st |-> "init", laddr |-> AnyA, lport |-> 0, raddr |-> AnyA, rport |-> 0,
                                  nets |-> {Ev.v}, rcvclosed |-> FALSE, v6only |-> FALSE,
-                                 holds |-> FALSE, haddr |-> AnyA, hport |-> 0, hnets |-> {}]) @@ socks
+                                 holds |-> FALSE, haddr |-> AnyA, hport |-> 0, hnets |-> {},
+                                 tcpst |-> "", syn |-> <<-1, -1>>]) @@ socks
            /\ q' = (Ev.s :> <<>>) @@ q
            /\ UNCHANGED <<addrs, promisc, pemit, expect>>
 
@@ -167,16 +168,28 @@ Add32(hi, lo, n) == LET s == lo + n IN <<(hi + s \div 65536) % 65536, s % 65536>
 SegLen(e) == e.pay.n + (IF \E i \in 1..Len(e.flags) : SubSeq(e.flags, i, i) = "S" THEN 1 ELSE 0)
                      + (IF \E i \in 1..Len(e.flags) : SubSeq(e.flags, i, i) = "F" THEN 1 ELSE 0)
 HasFlag(e, c) == \E i \in 1..Len(e.flags) : SubSeq(e.flags, i, i) = c
+SynOf(e) == {s \in Sids : socks[s].typ = "tcp" /\ socks[s].st = "conn" /\ socks[s].tcpst = "synsent" /\ socks[s].laddr = e.src
+                            /\ socks[s].lport = e.sport /\ socks[s].raddr = e.dst /\ socks[s].rport = e.dport}
 InjectTcp == /\ IsEvent("op") /\ Ev.op = "inject" /\ Ev.kind = "tcp" /\ expect = NoExp
              /\ UniqueBinding
-             /\ LET t == Target("tcp", Fld(Ev, "nic", 1), Ev.v, Ev.src, Ev.sport, Ev.dst, Ev.dport) IN
+             /\ LET t == Target("tcp", Fld(Ev, "nic", 1), Ev.v, Ev.src, Ev.sport, Ev.dst, Ev.dport)
+                    synack == t # NoSock /\ socks[t].tcpst = "synsent" /\ socks[t].syn[1] >= 0
+                              /\ HasFlag(Ev, "S") /\ HasFlag(Ev, "A") /\ ~HasFlag(Ev, "R") /\ ~HasFlag(Ev, "F") /\ Ev.pay.n = 0
+                              /\ <<Ev.ackhi, Ev.acklo>> = Add32(socks[t].syn[1], socks[t].syn[2], 1)
+                IN
                 IF t = NoSock /\ Accepts(Fld(Ev, "nic", 1), Ev.dst) /\ ~HasFlag(Ev, "R")
-                THEN expect' = [kind |-> "rst", src |-> Ev.dst, dst |-> Ev.src, sport |-> Ev.dport, dport |-> Ev.sport,
+                THEN /\ expect' = [kind |-> "rst", src |-> Ev.dst, dst |-> Ev.src, sport |-> Ev.dport, dport |-> Ev.sport,
                                 seq |-> IF HasFlag(Ev, "A") THEN <<Ev.ackhi, Ev.acklo>> ELSE <<0, 0>>,
                                 ack |-> Add32(Ev.seqhi, Ev.seqlo, SegLen(Ev))]
-                ELSE expect' = [kind |-> "notcp", src |-> Ev.dst, dst |-> Ev.src, sport |-> Ev.dport, dport |-> Ev.sport,
+                     /\ UNCHANGED socks
+                ELSE IF synack
+                THEN /\ expect' = [kind |-> "hsack", src |-> Ev.dst, dst |-> Ev.src, sport |-> Ev.dport, dport |-> Ev.sport,
+                                    seq |-> <<Ev.ackhi, Ev.acklo>>, ack |-> Add32(Ev.seqhi, Ev.seqlo, 1)]
+                     /\ socks' = [socks EXCEPT ![t].tcpst = "estab"]
+                ELSE /\ expect' = [kind |-> "notcp", src |-> Ev.dst, dst |-> Ev.src, sport |-> Ev.dport, dport |-> Ev.sport,
                                 tosock |-> (t # NoSock)]
-             /\ UNCHANGED <<addrs, promisc, socks, q, pemit>>
+                     /\ UNCHANGED socks
+             /\ UNCHANGED <<addrs, promisc, q, pemit>>
 
 \* exactly one reset that acknowledges the segment (sequence 0 if it carried no ACK)
 EmitRst == /\ IsEvent("emit") /\ Ev.kind = "tcp" /\ expect.kind = "rst"
@@ -192,16 +205,41 @@ EmitRst == /\ IsEvent("emit") /\ Ev.kind = "tcp" /\ expect.kind = "rst"
 \* the expectation ends at the next op event
 SameTuple(e) == e.src = expect.src /\ e.dst = expect.dst /\ e.sport = expect.sport /\ e.dport = expect.dport
 EmitTcpOther == /\ IsEvent("emit") /\ Ev.kind = "tcp" /\ expect.kind \in {"notcp", "none"}
+                /\ ~(HasFlag(Ev, "S") /\ ~HasFlag(Ev, "A") /\ ~HasFlag(Ev, "R") /\ SynOf(Ev) # {})
                 /\ (expect.kind = "notcp" /\ SameTuple(Ev)) => expect.tosock
                 /\ UNCHANGED <<addrs, promisc, socks, q, pemit, expect>>
-Settle == /\ IsEvent("op") /\ Ev.op \in {"settle", "sleep"} /\ expect.kind # "rst"
+Settle == /\ IsEvent("op") /\ Ev.op \in {"settle", "sleep"} /\ expect.kind \notin {"rst", "hsack"}
           /\ expect' = NoExp /\ UNCHANGED <<addrs, promisc, socks, q, pemit>>
 EndExpect == /\ expect.kind = "notcp" /\ l <= NT /\ Trace[l].ev = "op" /\ Trace[l].op \notin {"settle", "sleep"}
              /\ expect' = NoExp /\ UNCHANGED <<l, addrs, promisc, socks, q, pemit>>
 EmitOther == /\ IsEvent("emit") /\ Ev.kind \notin {"udp", "tcp"}
              /\ UNCHANGED <<addrs, promisc, socks, q, pemit, expect>>
-TcpConnect == /\ IsEvent("op") /\ Ev.op \in {"connect", "accept"} /\ expect = NoExp /\ socks[Ev.s].typ = "tcp"
-              /\ UNCHANGED <<addrs, promisc, socks, q, pemit, expect>>
+\* TCP active open: Connect registers the full 4-tuple with the demultiplexer at once (the SYN goes out; the handshake
+\* completes later) and gives up the port reservation made by an earlier bind: from here on only the 4-tuple is taken.
+\* A connect that collides with an existing registration of the same 4-tuple fails and changes nothing.
+ConnStarted(e) == e \in {"", "connection attempt started"}
+TcpConnect == /\ IsEvent("op") /\ Ev.op = "connect" /\ expect = NoExp /\ socks[Ev.s].typ = "tcp"
+              /\ IF ConnStarted(Ev.err)
+                 THEN socks' = [socks EXCEPT ![Ev.s].st = "conn", ![Ev.s].laddr = Ev.laddr, ![Ev.s].lport = Ev.lport,
+                                             ![Ev.s].raddr = Ev.addr, ![Ev.s].rport = Ev.port,
+                                             ![Ev.s].nets = IF socks[Ev.s].v = 4 THEN {4} ELSE {6},
+                                             ![Ev.s].holds = FALSE, ![Ev.s].tcpst = "synsent"]
+                 ELSE UNCHANGED socks
+              /\ UNCHANGED <<addrs, promisc, q, pemit, expect>>
+TcpAccept == /\ IsEvent("op") /\ Ev.op = "accept" /\ expect = NoExp /\ socks[Ev.s].typ = "tcp"
+             /\ UNCHANGED <<addrs, promisc, socks, q, pemit, expect>>
+\* the SYN of an active open (first transmission or retransmission): remember its sequence number
+EmitSyn == /\ IsEvent("emit") /\ Ev.kind = "tcp" /\ HasFlag(Ev, "S") /\ ~HasFlag(Ev, "A") /\ ~HasFlag(Ev, "R") /\ SynOf(Ev) # {}
+           /\ socks' = [s \in Sids |-> IF s \in SynOf(Ev) THEN [socks[s] EXCEPT !.syn = <<Ev.seqhi, Ev.seqlo>>] ELSE socks[s]]
+           /\ UNCHANGED <<addrs, promisc, q, pemit, expect>>
+\* the SYN-ACK that acknowledges exactly that SYN reaches the connecting socket (the most specific match): the handshake
+\* completes, i.e. the next frame on that 4-tuple is the final ACK (not a reset: a socket matched)
+EmitHsAck == /\ IsEvent("emit") /\ Ev.kind = "tcp" /\ expect.kind = "hsack"
+             /\ HasFlag(Ev, "A") /\ ~HasFlag(Ev, "R") /\ ~HasFlag(Ev, "S")
+             /\ Ev.src = expect.src /\ Ev.dst = expect.dst /\ Ev.sport = expect.sport /\ Ev.dport = expect.dport
+             /\ <<Ev.seqhi, Ev.seqlo>> = expect.seq /\ <<Ev.ackhi, Ev.acklo>> = expect.ack
+             /\ expect' = [kind |-> "notcp", src |-> expect.src, dst |-> expect.dst, sport |-> expect.sport, dport |-> expect.dport, tosock |-> TRUE]
+             /\ UNCHANGED <<addrs, promisc, socks, q, pemit>>
 \* C10 at socket level: IsPortAvailable answers exactly "no live socket holds a conflicting reservation":
 \* reservations are made at bind / auto-bind, are exclusive, and are released by Close (and by nothing else)
 HeldConflict(nets, t, a, p) == \E s \in Sids : socks[s].holds /\ socks[s].typ = t /\ socks[s].hport = p /\ socks[s].hnets \cap nets # {}
@@ -212,6 +250,6 @@ Avail == /\ IsEvent("op") /\ Ev.op = "avail" /\ expect = NoExp
 
 TNext == Reset \/ NewSock \/ Bind \/ Connect \/ Listen \/ SetOpt \/ Write \/ EmitUdp \/ InjectUdp \/ Read \/ ReadAll
          \/ Shutdown \/ Close \/ AddrOps \/ InjectTcp \/ EmitRst \/ EmitTcpOther \/ Settle \/ EndExpect \/ EmitOther
-         \/ TcpConnect \/ Avail
+         \/ TcpConnect \/ TcpAccept \/ EmitSyn \/ EmitHsAck \/ Avail
 TSpec == TInit /\ [][TNext]_tvars
 ====
